@@ -107,7 +107,7 @@ pub fn c07(o: &Opts) -> Outcome {
         {
             let recs: Vec<Vec<u8>> = vec![b"ACGGTCATTGACCAGTTAGG".to_vec(), b"TTGACCATGGCATTAG".to_vec(), b"ACGGTCATTGACC".to_vec(), b"GGGGGGGGGGGGG".to_vec(), b"AC".to_vec()];
             cases += 1;
-            if let Some(w) = with_gzm(|| c07_one(&recs, 10, 2, 6.0, false)) { return Outcome { cases, witness: Some(w) }; }
+            for kind in KINDS { if let Some(w) = with_kind(kind, &recs, || c07_one(&recs, 10, 2, 6.0, false)) { return Outcome { cases, witness: Some(w) }; } }
             // a pass of records without k-mers between passes with k-mers, one record per pass
             let recs: Vec<Vec<u8>> = vec![b"AAAAAAAA".to_vec(), b"NNNNNNNN".to_vec(), b"AAAAAAAA".to_vec()];
             for (threads, mem) in [(1usize, 5e-9f64), (1, 1e-8), (2, 5e-9)] {
